@@ -241,7 +241,7 @@ class RF24:
         self._reg_write(0x1D, features)
 
     def load_ack(self, buf, pipe_num):
-        if 0 <= pipe_num <= 5 and (not buf or (len(buf) < 32)):
+        if 0 <= pipe_num <= 5 and 0 < len(buf) <= 32:
             if not self._reg_read(0x1D) & 2:
                 self.ack = True
             if not self.tx_full:
